@@ -6,7 +6,7 @@ import RrModel.Spec.Tables
   C18 — restart_on_redirect follows redirects through the rules and always terminates
   (uncached path; the cached re-entry sites are a later slice).
 
-  * `location_resolution_partial`, `resolution_fails_witness`, `ResolutionStatement_false` (C18-b)
+  * `location_resolution` (full strength since the repair of finding C18-b)
   * `hop_semantics_match`, `hop_semantics_fallback`, `hop_semantics_nomatch_root`
   * `terminates_partial`, `final_response`, `follow_done_reaches`, `ending_chain_acyclic`
   * `self_redirect_508`, `absolute_not_caught_on_first_request`
@@ -35,52 +35,68 @@ theorem index_slash_zero (p : Bytes) : index b!"/" p = some 0 ↔ ∃ t, p = 47 
     · have : (List.isPrefixOf [47] (c :: t)) = false := by simp [List.isPrefixOf, Ne.symm hc]
       simp [index, this, hc]
 
-theorem split1_no_sep (c : Nat) (t : Bytes) (h : c ∉ t) : split1 c t = [t] := by
+/-- `strings.LastIndex(p, "/")` finds a slash exactly when there is one -/
+theorem lastIndex_slash_none (t : Bytes) : lastIndex b!"/" t = none ↔ 47 ∉ t := by
   induction t with
+  | nil => simp [lastIndex]
+  | cons c t ih =>
+    unfold lastIndex
+    cases h : lastIndex b!"/" t with
+    | some i =>
+      have hm : 47 ∈ t := Classical.byContradiction fun hn => by rw [ih.2 hn] at h; cases h
+      simp [hm]
+    | none =>
+      have hn := ih.1 h
+      by_cases hc : c = 47
+      · subst hc; simp [List.isPrefixOf]
+      · have : (List.isPrefixOf [47] (c :: t)) = false := by simp [List.isPrefixOf, Ne.symm hc]
+        simp [this, hn, Ne.symm hc]
+
+theorem dirOf_no_slash (t : Bytes) (h : 47 ∉ t) : dirOf t = [] := by
+  cases t with
   | nil => rfl
-  | cons d t ih =>
-    have hd : d ≠ c := fun e => h (by simp [e])
-    have ht : c ∉ t := fun e => h (by simp [e])
-    simp [split1, hd, ih ht]
-
-theorem dirOf_root (p : Bytes) (h : dirOf p = b!"/") : ∃ t, p = 47 :: t ∧ 47 ∉ t := by
-  cases p with
-  | nil => simp [dirOf] at h
   | cons c t =>
-    unfold dirOf at h
-    by_cases hc : (c :: t).contains 47 = true
-    · rw [if_pos hc] at h
-      have h1 : c = 47 := by simpa using (List.cons.inj h).1
-      have h2 : dirOf t = [] := (List.cons.inj h).2
-      refine ⟨t, by rw [h1], ?_⟩
-      intro hm
-      cases t with
-      | nil => simp at hm
-      | cons d t' =>
-        unfold dirOf at h2
-        have : (d :: t').contains 47 = true := by simpa using hm
-        rw [if_pos this] at h2
-        simp at h2
-    · rw [if_neg hc] at h
-      simp at h
+    unfold dirOf
+    have : ¬ (c :: t).contains 47 = true := by simpa using h
+    rw [if_neg this]
 
-/-- a base path directly under the root has at most one field -/
-theorem fields_root (p : Bytes) (h : baseDir p = b!"/") : (fieldsBy 47 p).length ≤ 1 := by
-  unfold baseDir at h
-  by_cases hp : p = []
-  · subst hp; simp [fieldsBy, split1]
-  · rw [if_neg hp] at h
-    obtain ⟨t, rfl, ht⟩ := dirOf_root p h
-    unfold fieldsBy
-    simp only [split1, ↓reduceIte, split1_no_sep 47 t ht]
-    by_cases ht' : t = [] <;> simp [List.filter, ht']
+/-- the prefix the repaired code cuts (`p[:LastIndex(p, "/")+1]`) is the specification's directory -/
+theorem uptoLastSlash_dirOf (p : Bytes) : uptoLastSlash p = dirOf p := by
+  induction p with
+  | nil => rfl
+  | cons c t ih =>
+    unfold uptoLastSlash at ih ⊢
+    unfold lastIndex dirOf
+    cases h : lastIndex b!"/" t with
+    | some i =>
+      have hm : 47 ∈ t := Classical.byContradiction fun hn => by
+        rw [(lastIndex_slash_none t).2 hn] at h; cases h
+      have hc : (c :: t).contains 47 = true := by simp [hm]
+      rw [h] at ih
+      simp only at ih
+      simp only [hc, ↓reduceIte, List.take_succ_cons, ih]
+    | none =>
+      have hn := (lastIndex_slash_none t).1 h
+      by_cases hc : c = 47
+      · subst hc
+        simp [List.isPrefixOf, dirOf_no_slash t hn]
+      · have hp : (List.isPrefixOf [47] (c :: t)) = false := by simp [List.isPrefixOf, Ne.symm hc]
+        have hcn : ¬ (c :: t).contains 47 = true := by simp [hn, Ne.symm hc]
+        simp only [hp, Bool.false_eq_true, ↓reduceIte, List.take_zero, hcn]
 
-/-- **location_resolution** (partial: class C18-b excluded): absolute Locations are taken as
-    they are, `/`-rooted ones are put on the host that answered, relative ones are merged onto
-    the directory of the request path -/
-theorem location_resolution_partial (origUrl : RUrl) (origHost : Bytes) (requested redir : RUrl)
-    (hh : requested.host ≠ []) (hc : inClass_C18_b origUrl.path redir = false) :
-    resolvedOf (redirectedURL origUrl origHost requested redir) = resolve requested.host origUrl.path redir := by
+/-- the relative branch merges the reference onto the directory of the request path -/
+theorem relativePath_merge (origPath redirPath : Bytes) :
+    relativePath origPath redirPath = baseDir origPath ++ redirPath := by
+  unfold relativePath baseDir
+  cases origPath with
+  | nil => simp
+  | cons c t => simp [uptoLastSlash_dirOf]
+
+/-- **location_resolution** (full strength since the repair of finding C18-b): absolute
+    Locations are taken as they are, `/`-rooted ones are put on the host that answered, relative
+    ones are merged onto the directory of the request path (RFC 3986 §5.2.3) -/
+theorem location_resolution : ResolutionStatement := by
+  intro origUrl origHost requested redir hh
   have hlen : requested.host.length > 0 := by
     cases h : requested.host with
     | nil => exact absurd h hh
@@ -96,19 +112,7 @@ theorem location_resolution_partial (origUrl : RUrl) (origHost : Bytes) (request
       simp [resolvedOf, ht]
     · rw [if_neg hr]
       have hnr : ∀ t, redir.path ≠ 47 :: t := fun t e => hr ((index_slash_zero _).2 ⟨t, e⟩)
-      have hform : formOf redir = .relative := by
-        unfold formOf
-        simp only [hs, ne_eq, not_true_eq_false, ↓reduceIte]
-      have hbd : baseDir origUrl.path = b!"/" := by
-        unfold inClass_C18_b at hc
-        simp only [hform, beq_self_eq_true, Bool.true_and, bne_eq_false_iff_eq] at hc
-        exact hc
-      have hf := fields_root _ hbd
-      have hrel : relativePath origUrl.path redir.path = b!"/" ++ redir.path := by
-        unfold relativePath
-        simp only
-        rw [if_neg (by omega)]
-      simp only [resolvedOf, hrel, hbd]
+      simp only [resolvedOf, relativePath_merge]
   · have hs' : redir.scheme.length > 0 := by
       cases h : redir.scheme with
       | nil => exact absurd h hs
@@ -116,30 +120,27 @@ theorem location_resolution_partial (origUrl : RUrl) (origHost : Bytes) (request
     rw [if_pos hs']
     simp [hs, resolvedOf]
 
+/-- non-vacuity: all three forms of a Location occur -/
+example : formOf { scheme := b!"http", host := b!"d0.test", path := b!"/c" } = .absolute ∧
+    formOf { path := b!"/c" } = .rooted ∧ formOf { path := b!"2", rawQuery := b!"c=d" } = .relative := by decide
 
-/-- non-vacuity: a relative Location below a one-segment path is outside the class -/
-example : inClass_C18_b b!"/1" { path := b!"2", rawQuery := b!"c=d" } = false := by decide
-
-/-- witness for C18-b: `/s/a` answers `Location: b`; RFC 3986 says `/s/b`, the code builds `/sb` -/
+/-- the inputs of the repaired finding C18-b: `/s/a` answers `Location: b` -/
 def wOrig : RUrl := { path := b!"/s/a" }
 def wRequested : RUrl := { scheme := b!"http", host := b!"d0.test", path := b!"/s/a" }
 def wRedir : RUrl := { path := b!"b" }
 
-theorem resolution_fails_witness :
-    (redirectedURL wOrig b!"h.test" wRequested wRedir).path = b!"/sb" ∧
-    (resolve wRequested.host wOrig.path wRedir).path = b!"/s/b" ∧
-    inClass_C18_b wOrig.path wRedir = true := by decide
+/-- the former witness, repaired: `/s/a` + `b` is `/s/b` (the code used to build `/sb`) -/
+example :
+    (redirectedURL wOrig b!"h.test" wRequested wRedir).path = b!"/s/b" ∧
+    (resolve wRequested.host wOrig.path wRedir).path = b!"/s/b" := by decide
 
-/-- a trailing slash loses the directory altogether: `/s/` + `b` ⇒ `/b` -/
-theorem resolution_fails_witness_dir :
-    (redirectedURL { path := b!"/s/" } b!"h.test" wRequested wRedir).path = b!"/b" ∧
-    (resolve wRequested.host b!"/s/" wRedir).path = b!"/s/b" := by decide
-
-theorem ResolutionStatement_false : ¬ ResolutionStatement := by
-  intro h
-  have := h wOrig b!"h.test" wRequested wRedir (by decide)
-  revert this
-  decide
+/-- a trailing slash keeps the directory: `/s/` + `b` ⇒ `/s/b` (used to be `/b`); a path directly
+    under the root, or none at all, merges onto the root as before -/
+example :
+    (redirectedURL { path := b!"/s/" } b!"h.test" wRequested wRedir).path = b!"/s/b" ∧
+    (redirectedURL { path := b!"/a" } b!"h.test" wRequested wRedir).path = b!"/b" ∧
+    (redirectedURL { path := [] } b!"h.test" wRequested wRedir).path = b!"/b" ∧
+    (redirectedURL { path := b!"/x/y/z" } b!"h.test" wRequested { path := b!"w", rawQuery := b!"k=v" }).path = b!"/x/y/w" := by decide
 
 /-! the four strings of `TestRedirectedURL` (util/http_test.go) -/
 
@@ -784,7 +785,8 @@ theorem fails_witness_a : holds nodes2 0 (obsOf (follow cfg2 40 (clientGet b!"/a
   rw [diverges_forall_fuel 40]
   exact holds_cycle_diverged nodes2 0 (by decide)
 
-/-- the graph of the separator witness (stream kf.C18-b, case 0): `/s/a → b`, `/s/b` answers 200 -/
+/-- the graph of the former separator witness (regression stream kf.C18-b, case 0): `/s/a → b`,
+    `/s/b` answers 200 -/
 def nodesB : List Node :=
   [{ path := b!"/s/a", redirect := true, status := 302, body := [], hasLoc := true, location := b!"b", intended := 1, ruleIdx := -1 },
    { path := b!"/s/b", redirect := false, status := 200, body := b!"target", hasLoc := false, location := [], intended := -1, ruleIdx := -1 }]
@@ -792,11 +794,14 @@ def nodesB : List Node :=
 def cfgB : Cfg := cfgOf [rootRule]
   [(b!"/s/a", { status := 302, location := b!"b" }), (b!"/s/b", { status := 200, body := b!"target" })]
 
-/-- **fails_witness** (C18-b): the chain is acyclic, yet the client does not get the sink's
-    response: the second contact goes to `/sb` -/
-theorem fails_witness_b :
-    holds nodesB 0 (obsOf (follow cfgB 40 (clientGet b!"/s/a"))) = false ∧
-    ((obsOf (follow cfgB 40 (clientGet b!"/s/a"))).contacts.map (·.uri)) = [b!"/s/a", b!"/sb"] := by
+/-- the former witness of C18-b, repaired: the second contact goes to `/s/b` and the client gets
+    the sink's response; both oracles accept the model's outcome -/
+example :
+    holds nodesB 0 (obsOf (follow cfgB 40 (clientGet b!"/s/a"))) = true ∧
+    ((obsOf (follow cfgB 40 (clientGet b!"/s/a"))).contacts.map (·.uri)) = [b!"/s/a", b!"/s/b"] ∧
+    (match (obsOf (follow cfgB 40 (clientGet b!"/s/a"))).contacts with
+     | [c0, c1] => holdsHop cfgB.rules c0 { path := b!"b" } c1
+     | _ => false) = true := by
   decide
 
 /-- non-vacuity: on the acyclic chain `cfgChain` the oracle accepts the model's outcome -/
